@@ -180,6 +180,28 @@ func c10Observe(r *hx.Run) {
 	base, starts := gen.GroupFile(groups)
 	// insertion points: before any rule, or at the very top, or at the end
 	points := append([]int{0, len(base)}, starts...)
+	// an earlier exclusion of another form, the same in every file compared: what one form leaves behind in the
+	// reader's state must not change what a later form excludes (seeded change C10-autoreset-leaks-into-block)
+	if rr.Intn(2) == 0 {
+		pre := hx.Pick(rr, [][]string{
+			{"# pint ignore/next-line", "{{ excluded earlier }}"},
+			{"{{ excluded earlier }} # pint ignore/line"},
+			{"# pint ignore/begin", "{{ excluded earlier }}", "{{ and this }}", "# pint ignore/end"},
+		})
+		at0 := hx.Pick(rr, points)
+		nb := append([]string{}, base[:at0]...)
+		nb = append(nb, pre...)
+		nb = append(nb, base[at0:]...)
+		base = nb
+		var later []int
+		for _, p := range points {
+			if p >= at0 {
+				later = append(later, p+len(pre))
+			}
+		}
+		points = later
+		r.Count("earlier-exclusion:" + strings.Fields(pre[len(pre)-1] + " x")[0])
+	}
 	at := hx.Pick(rr, points)
 	form := hx.Pick(rr, []string{"begin-end", "next-line", "line", "file"})
 	withCtl := rr.Intn(5) == 0
